@@ -28,6 +28,20 @@ def run_triggers(task):
             break
         name = names[it % len(names)]
         box, params = gen.gen_call(rnd, name, {"max_arity": 4, "width": 3, "allow_all_zero": True})
+        if name in ("no_sub_cycle", "scc") and (it // len(names)) % 4 != 0:
+            # circuits of 5-10 vertices: narrow windows around a planted Hamiltonian cycle, some successors fixed - the shape
+            # in which removing a value at a bound instantiates a successor and the consequences cascade
+            m = rnd.randint(5, 10)
+            perm = list(range(1, m))
+            rnd.shuffle(perm)
+            order = [0] + perm
+            succ = [0] * m
+            for i in range(m):
+                succ[order[i]] = order[(i + 1) % m]
+            box = [[max(0, succ[i] - rnd.randint(0, 2)), min(m - 1, succ[i] + rnd.randint(0, 2))] for i in range(m)]
+            for i in rnd.sample(range(m), rnd.randint(0, m // 2)):
+                box[i] = [succ[i], succ[i]]
+            params = []
         # bring the box to the constraint's own fixpoint
         ok = True
         for _ in range(30):
